@@ -546,6 +546,84 @@ pub fn run_c09_big(ctx: &mut Ctx) -> R {
 /// (block 16/32, max LPC order, low-amplitude signal family, mono/stereo) cell — the region where the
 /// final block is shorter than twice the predictor order. Judged by the crate's decoder (C01) or by
 /// refflac (C02).
+/// Block sizes and final-frame lengths in the neighbourhood of every entry of the frame header's
+/// block-size code table (and of the 8-bit / 16-bit uncommon-size boundaries): a size that is coded
+/// through the table, one that just misses it, a final frame whose length happens to be a table value.
+/// Cheap signals, one or two channels; the same oracles as the round-trip world.
+pub fn run_sizes(ctx: &mut Ctx) -> R {
+    let ch = ctx.ch.clone();
+    const TABLE: &[u32] = &[192, 576, 1152, 2304, 4608, 256, 512, 1024, 2048, 4096, 8192, 16384, 32768, 16, 65535, 257];
+    let t = *ch.pick("sz.table", TABLE);
+    let d = ch.draw("sz.delta", 5) as i64 - 2;
+    let size = (t as i64 + d).clamp(16, 65535) as u16;
+    let mut cfg = draw_cfg(&ch, true);
+    cfg.channels = 1 + ch.draw("sz.ch", 2) as u8;
+    cfg.bps = *ch.pick("sz.bps", &[16u32, 8, 24, 12]);
+    cfg.lpc = *ch.pick("sz.lpc", &[None, Some(2u8), Some(8)]);
+    cfg.part = ch.draw("sz.part", 4) as u32;
+    cfg.offset = 0;
+    cfg.tags = 0;
+    cfg.seek = *ch.pick("sz.seek", &[SeekPolicy::Off, SeekPolicy::Frames(1)]);
+    // mode 0: the size is the stream's block size; mode 1: it is the length of the final frame of a
+    // stream with a larger block size
+    let mode = ch.draw("sz.mode", 2);
+    let frames = if mode == 0 {
+        cfg.block = size;
+        let full = 1 + ch.draw("sz.full", 2) as usize;
+        full * size as usize + *ch.pick("sz.rem", &[0usize, 1, 15, 16]) % size as usize
+    } else {
+        let big = (size as u32 + 1 + *ch.pick("sz.bigger", &[0u32, 1, 100, 3584, 30000])).min(65535) as u16;
+        if big <= size {
+            ctx.eval(0, false);
+            return Ok(());
+        }
+        cfg.block = big;
+        probe("sizes_final_frame_length_from_table_neighbourhood");
+        big as usize + size as usize
+    };
+    if frames * cfg.channels as usize > 400_000 {
+        cfg.channels = 1;
+    }
+    // cheap signal: silence, a constant, a slow ramp or small noise
+    let fam = *ch.pick("sz.fam", &[0u64, 1, 3, 5]);
+    let mut rng = crate::rng::Xoshiro::new(ch.raw("sz.sig"));
+    let chans: Vec<Vec<i32>> = (0..cfg.channels).map(|_| gen_channel(fam, &mut rng, frames, cfg.bps)).collect();
+    let mut inter = Vec::with_capacity(frames * cfg.channels as usize);
+    for i in 0..frames {
+        for c in &chans {
+            inter.push(c[i]);
+        }
+    }
+    let pcm = Pcm { channels: cfg.channels as usize, bps: cfg.bps, frames, inter };
+    let kind = draw_wkind(&ch);
+    let chunks = draw_write_chunks(&ch, kind, &pcm);
+    let p = RtParams { cfg, pcm, kind, chunks, wben: Benign::none(), wcap: 8192 };
+    describe(ctx, &p);
+    probe("sizes_block_size_table_neighbourhood");
+    let enc = match encode_to_disk(ctx, &p) {
+        Ok(e) => e,
+        Err(e) => {
+            ctx.eval(0, true);
+            if ctx.is("C01") {
+                return viol("encode-failed", format!("valid input refused/failed at {}: {}", e.stage, e.err));
+            }
+            ctx.skip_foreign(format!("encode failed at {}: {} (C01's matter)", e.stage, e.err));
+            return Ok(());
+        }
+    };
+    let r = match ctx.prop.as_str() {
+        "C01" => check_c01(ctx, &enc, &ch),
+        "C02" => check_c02(ctx, &enc),
+        "C09" => check_c09(ctx, &enc),
+        "C19" => check_c19(ctx, &enc),
+        "C17" => crate::scen_c17::check_clean(ctx, &enc),
+        _ => Ok(()),
+    };
+    let nontrivial = ctx.disk.0.borrow().frame_sized_transfers > 0;
+    ctx.eval(0, nontrivial);
+    r
+}
+
 pub fn run_short_sweep(ctx: &mut Ctx) -> R {
     use flac_codec::encode::FlacSampleWriter;
     let ch = ctx.ch.clone();
